@@ -46,6 +46,9 @@ def passthrough_docs(case, rnd):
         docs.append(f'<svg {NS}><rect width="3" height="3" data-x="{a}" text="{a}" xy="{a}"/></svg>')
         docs.append(f'<svg {NS} xmlns:xlink="http://www.w3.org/1999/xlink"><use xlink:href="#{"q"}" xml:space="preserve" '
                     f'title="{a}"/></svg>')
+        # attributes the svgdx branch treats specially (class lists, style, ids, transforms)
+        docs.append(f'<svg {NS} class="{a}" style="{a}"><g class="{a}" transform="{a}"><rect width="1" height="1" class="k {a} k" '
+                    f'id="{a}" style="{a}"/></g></svg>')
     elif k == "text":
         t = char_refs(v, rnd).replace(">", "&gt;")
         docs.append(f'<svg {NS}><text x="1" y="2">{t}</text><rect wh="5">{t}</rect></svg>')
@@ -105,6 +108,24 @@ def run(rep, tier, seed):
         for v in range(2):
             cases.append({"k": f"c03e-{pos}-{v}", "xml": xml, "cfg": dict(textc.CONFIGS[v * 2]), "case": {"fam": "embedded", "pos": pos},
                           "mode": "embedded", "sub": sub})
+    # ... carrying the payloads as well: nothing inside the namespaced subtree may be normalised
+    seen = set()
+    wraps = [("first", "<svg>{}<rect wh=\"3\"/></svg>"), ("later", "<svg><rect wh=\"3\"/>{}</svg>"),
+             ("in-g", "<svg><rect wh=\"3\"/><g>{}</g></svg>"), ("in-defs", "<svg><rect wh=\"3\"/><defs>{}</defs></svg>")]
+    for j, c in enumerate(recs):
+        key = (c["kind"], tuple(c["s"]))
+        if key in seen:
+            continue
+        seen.add(key)
+        if not big and len(seen) % 2:
+            continue
+        for d, xml in enumerate(passthrough_docs(c, rnd)):
+            if f"<svg {NS}" not in xml:
+                continue
+            sub2 = xml.replace(f"<svg {NS}", f'<svg {NS} width="5"', 1)
+            pos, w = wraps[(j + d) % len(wraps)]
+            cases.append({"k": f"c03f-{j}-{d}", "xml": w.format(sub2), "cfg": dict(textc.CONFIGS[(j + d) % len(textc.CONFIGS)]),
+                          "case": {"fam": "embedded", "pos": pos, "kind": None, "payload": c}, "mode": "embedded", "sub": sub2})
     res = vlib.run_cases([{"k": c["k"], "xml": c["xml"], "cfg": c["cfg"]} for c in cases])
     for i, c in enumerate(cases):
         r = res[c["k"]]
